@@ -25,11 +25,14 @@ ModesAll == {<<"strict", 1>>, <<"alo", 1>>, <<"alo", 2>>}
 ModesStrict == {<<"strict", 1>>}
 ModesQ == {<<"strict", 1>>, <<"alo", 2>>}
 
-ShapesQ == {<<100, 1500>>, <<1500, 1500>>}
+ShapesQ == {<<100, 100>>, <<100, 1500>>}
 ShapesT == {<<100, 100>>, <<300, 1500>>, <<1500, 1500>>, <<0, 100, 300, 1500, 1792, 100>>}
 ShapesBad == {<<100, 100, 100, 100, 100, 100, 100>>}
-FailQ == {<<100, 1500>>}
+FailQ == {<<100, 100>>, <<100, 1500>>}
 FailT == {<<100, 1500>>, <<300, 1500>>, <<1500, 1500>>, <<1500, 1500, 1500>>}
+ShapesW == ShapesT \cup ShapesBad
+ShapesTwo == {<<100, 1500>>}
+BudgetsTwo == {0, -1}
 NoShapes == {}
 
 View == <<avars, dvars>>
